@@ -197,7 +197,8 @@ func (p *Prompt) SecondaryPrint() {
 
 // MultilineColumnPrint prints the multiline editor column status indicator.
 // It either prints a default, numbered or user-defined column.
-func (p *Prompt) MultilineColumnPrint() {
+// It returns the number of rows that the cursor went down while printing it.
+func (p *Prompt) MultilineColumnPrint() (rows int) {
 	numbered := p.opts.GetBool("multiline-column-numbered")
 	custom := p.opts.GetString("multiline-column-custom")
 	defaultCol := p.opts.GetBool("multiline-column")
@@ -226,7 +227,12 @@ func (p *Prompt) MultilineColumnPrint() {
 		}
 
 		fmt.Print(column)
+
+	default:
+		return 0
 	}
+
+	return p.line.Lines()
 }
 
 // RightPrint prints the right-sided prompt strings, which might be either
